@@ -112,8 +112,23 @@ def fn_internal_shape(prog: dict, fn: dict) -> tuple:
     return tuple(prog["sizes"][a] for a in fn["out_axes"] if a in fn["int_axes"])
 
 
+TRACE_ARG_LIMIT = 2000
+
+
+def _arg_text(v: Any) -> str:
+    """Provenance text of one argument.  Nested ':' slices and reductions make the text grow geometrically with the
+    depth of the program (gigabytes for a few rank-6 cases); beyond TRACE_ARG_LIMIT characters the text is replaced
+    by its length and SHA-1, which keeps the oracle's equality semantics with bounded memory."""
+    t = canon_text(v)
+    if len(t) > TRACE_ARG_LIMIT:
+        import hashlib
+
+        t = f"<{len(t)}#{hashlib.sha1(t.encode()).hexdigest()[:20]}>"
+    return t
+
+
 def trace_call(fn: dict, kw: dict) -> str:
-    return fn["name"] + "(" + ";".join(f"{p['name']}={canon_text(kw[p['name']])}" for p in fn["params"]) + ")"
+    return fn["name"] + "(" + ";".join(f"{p['name']}={_arg_text(kw[p['name']])}" for p in fn["params"]) + ")"
 
 
 def returns_none(fn: dict, base: str) -> bool:
